@@ -1,5 +1,6 @@
 import DiffxVerif.Lemmas.Faithful
 import DiffxVerif.Lemmas.CodecProofs
+import DiffxVerif.Model.JsonDom
 /-!
 # The whole-run round trip for the concrete codecs: laws derived from acceptance
 
@@ -11,8 +12,10 @@ about the environment), `Lemmas/Faithful.lean` identifies the contents under
 executable codecs of `Model/Codecs.lean`, JSON still a parameter) and every one of these laws is
 *derived from the fact that the writer accepted the program*:
 
-* `JsonLaws`: the only hypothesis left about the environment (three facts about `json.dumps` /
-  `json.loads`);
+* `JsonLaws Dom`: the only hypothesis left about the environment (three facts about `json.dumps` /
+  `json.loads`, assumed for the dicts of a domain `Dom` only; for CPython `Dom` is
+  `Json.Representable`, Model/JsonDom.lean);
+* `DictsIn Dom calls`: the `dict` arguments of the program lie in that domain;
 * `lookup_of_encode`: a name the environment encodes with resolves through `Codecs.lookup`;
 * `Codec.nl_facts`: the encoded newlines of the codecs;
 * `textLaws_of_prepared`: `TextLaws` from an accepted `_prepare_content` on a `str`;
@@ -29,8 +32,15 @@ namespace Diffx
 
 /-- **What is assumed of `json`** — the only hypothesis about the environment that the concrete
 whole-run theorem keeps.  All three fields speak about the text `dumps` returns for a *dict*
-(`Json.obj`), the only values `DiffXWriter.add_meta` dumps; they hold of CPython's
-`json.dumps(obj, indent=4, separators=(',', ': '), sort_keys=True)` / `json.loads`:
+(`Json.obj`), the only values `DiffXWriter.add_meta` dumps, **and only for the dicts in `Dom`**:
+nothing is assumed about a dict outside `Dom`.  The model's `Json` is plain data and holds values
+of which the laws are false for CPython, or which present no Python dict at all: a string in which
+a lone high surrogate is directly followed by a lone low surrogate is dumped as `\uXXXX\uXXXX` and
+loaded back as *one* astral character; an item list with duplicate or unsorted keys is no dict as
+the harness presents one.  For CPython's
+`json.dumps(obj, indent=4, separators=(',', ': '), sort_keys=True)` / `json.loads` the domain is
+`Dom := Json.Representable isRepr` (Model/JsonDom.lean: keys strictly increasing, no surrogate
+pair in a string, float lexemes the `repr` of a float); on it:
 
 * `ascii`: `ensure_ascii` is left at its default `True`, every non-ASCII code point of a key or
   string value is written as a `\uXXXX` escape; the structural characters, digits, `true`,
@@ -42,14 +52,23 @@ whole-run theorem keeps.  All three fields speak about the text `dumps` returns 
   (string keys, JSON values) parses back to an equal dict.  The text is given to `loads` with the
   final `'\n'` the writer appends (`normText text false` is `text ++ "\n"` unless the text already
   ends with `'\n'`; CPython's output for a dict ends with `'}'`).  Equality is that of the model's
-  `Json` (a dict is its list of items): with `sort_keys=True` it presupposes that the harness
-  presents a dict by its items in sorted key order, Python's `==` on dicts being order-blind.
+  `Json` (a dict is its list of items): with `sort_keys=True` it holds because the harness
+  presents a dict by its items in sorted key order (`Dom`), Python's `==` on dicts being
+  order-blind.
 
-Nothing is assumed of `loadsBytes`, nor of `dumps` / `loads` on other values. -/
-structure JsonLaws (dumps : Json → EnvR Text) (loadsText : Text → EnvR Json) : Prop where
-  ascii : ∀ l text, dumps (.obj l) = .ok text → ∀ ch ∈ text, ch < 128
-  noCR : ∀ l text, dumps (.obj l) = .ok text → 13 ∉ text
-  loads : ∀ l text, dumps (.obj l) = .ok text → loadsText (normText text false) = .ok (.obj l)
+Nothing is assumed of `loadsBytes`, nor of `dumps` / `loads` on other values.  The theorems that
+take `JsonLaws Dom …` ask that the dicts of the program / tree lie in `Dom` (`DictsIn`,
+`TreeDictsIn`). -/
+structure JsonLaws (Dom : Json → Prop) (dumps : Json → EnvR Text) (loadsText : Text → EnvR Json) : Prop where
+  ascii : ∀ l text, Dom (.obj l) → dumps (.obj l) = .ok text → ∀ ch ∈ text, ch < 128
+  noCR : ∀ l text, Dom (.obj l) → dumps (.obj l) = .ok text → 13 ∉ text
+  loads : ∀ l text, Dom (.obj l) → dumps (.obj l) = .ok text → loadsText (normText text false) = .ok (.obj l)
+
+/-- the smaller the domain, the weaker the hypothesis -/
+theorem JsonLaws.mono {Dom Dom' : Json → Prop} {dumps : Json → EnvR Text} {loadsText : Text → EnvR Json}
+    (hsub : ∀ j, Dom' j → Dom j) (h : JsonLaws Dom dumps loadsText) : JsonLaws Dom' dumps loadsText :=
+  ⟨fun l t hd => h.ascii l t (hsub _ hd), fun l t hd => h.noCR l t (hsub _ hd),
+   fun l t hd => h.loads l t (hsub _ hd)⟩
 
 end Diffx
 
@@ -62,7 +81,7 @@ abbrev asciiName : Name := Text.ofAscii b!"ascii"
 /-! ## names and newlines of the concrete environment -/
 
 section Env
-variable (dj : Json → EnvR Text) (lt : Text → EnvR Json) (lb : Bytes → EnvR Json)
+variable {Dom : Json → Prop} (dj : Json → EnvR Text) (lt : Text → EnvR Json) (lb : Bytes → EnvR Json)
 
 /-- a name the environment encodes with resolves through `lookup` (an unknown name raises
 `LookupError`) -/
@@ -400,12 +419,67 @@ instance (calls : List Call) : Decidable (DictArgs calls) := by
 theorem isObj_inv (j : Json) (h : j.isObj = true) : ∃ l, j = .obj l := by
   cases j <;> first | exact ⟨_, rfl⟩ | cases h
 
+/-- the `dict` argument of a call, if it has one, lies in `Dom` -/
+def dictArgIn (Dom : Json → Prop) : Call → Prop
+  | .metadata (.dict j) _ _ => Dom j
+  | _ => True
+
+/-- every `dict` argument of the program lies in the domain on which the laws of `json` are assumed -/
+def DictsIn (Dom : Json → Prop) (calls : List Call) : Prop :=
+  ∀ j enc fmt, Call.metadata (.dict j) enc fmt ∈ calls → Dom j
+
+theorem dictsIn_iff (Dom : Json → Prop) (calls : List Call) :
+    DictsIn Dom calls ↔ ∀ c ∈ calls, dictArgIn Dom c := by
+  constructor
+  · intro h c hc
+    cases c with
+    | metadata m enc fmt =>
+      cases m with
+      | dict j => exact h j enc fmt hc
+      | str _ => trivial
+      | bytes _ => trivial
+      | other => trivial
+    | newChange _ => trivial
+    | newFile _ => trivial
+    | preamble _ _ _ _ _ => trivial
+    | diff _ _ _ _ => trivial
+  · intro h j enc fmt hm
+    exact h _ hm
+
+theorem dictsIn_nil (Dom : Json → Prop) : DictsIn Dom [] := fun _ _ _ h => nomatch h
+
+theorem DictsIn.head {Dom : Json → Prop} {c : Call} {cs : List Call} (h : DictsIn Dom (c :: cs)) :
+    dictArgIn Dom c := (dictsIn_iff Dom _).mp h c List.mem_cons_self
+
+theorem DictsIn.tail {Dom : Json → Prop} {c : Call} {cs : List Call} (h : DictsIn Dom (c :: cs)) :
+    DictsIn Dom cs := fun j enc fmt hm => h j enc fmt (List.mem_cons_of_mem _ hm)
+
+theorem dictsIn_append {Dom : Json → Prop} (xs ys : List Call) (hx : DictsIn Dom xs) (hy : DictsIn Dom ys) :
+    DictsIn Dom (xs ++ ys) := by
+  intro j enc fmt hm
+  rcases List.mem_append.mp hm with h | h
+  · exact hx j enc fmt h
+  · exact hy j enc fmt h
+
+theorem DictsIn.left {Dom : Json → Prop} {xs ys : List Call} (h : DictsIn Dom (xs ++ ys)) : DictsIn Dom xs :=
+  fun j enc fmt hm => h j enc fmt (List.mem_append_left _ hm)
+
+theorem DictsIn.right {Dom : Json → Prop} {xs ys : List Call} (h : DictsIn Dom (xs ++ ys)) : DictsIn Dom ys :=
+  fun j enc fmt hm => h j enc fmt (List.mem_append_right _ hm)
+
+/-- a larger domain asks less of the program -/
+theorem DictsIn.mono {Dom Dom' : Json → Prop} (hsub : ∀ j, Dom j → Dom' j) {calls : List Call}
+    (h : DictsIn Dom calls) : DictsIn Dom' calls := fun j enc fmt hm => hsub j (h j enc fmt hm)
+
+/-- the trivial domain (laws assumed of every dict) asks nothing of the program -/
+theorem dictsIn_true (calls : List Call) : DictsIn (fun _ => True) calls := fun _ _ _ _ => trivial
+
 /-- **The laws of one call hold as soon as the call is accepted** (and what it wrote fits
 `fp.read`, and a `dict` argument is a JSON object): `CallLaws` of `Lemmas/RunRoundTrip.lean`,
 with no hypothesis left about the codecs. -/
-theorem callLaws_exist (hjson : JsonLaws dj lt) (st : St) (c : Call)
+theorem callLaws_exist (hjson : JsonLaws Dom dj lt) (st : St) (c : Call)
     (hok : (step (env dj lt lb) cfg st c).2 = .ok)
-    (hwf : dictArgOk c = true)
+    (hwf : dictArgOk c = true) (hdom : dictArgIn Dom c)
     (hsz : (step (env dj lt lb) cfg st c).1.out.length ≤ Reader.maxRead) :
     Nonempty (CallLaws (env dj lt lb) cfg st c) := by
   have hencOk : EncOk (callEncoding c) :=
@@ -438,6 +512,7 @@ theorem callLaws_exist (hjson : JsonLaws dj lt) (st : St) (c : Call)
     cases m with
     | dict j =>
       obtain ⟨l, rfl⟩ := isObj_inv j hwf
+      have hdom : Dom (.obj l) := hdom
       simp only [payload] at hpl
       split at hpl
       · rename_i text hdl
@@ -447,8 +522,8 @@ theorem callLaws_exist (hjson : JsonLaws dj lt) (st : St) (c : Call)
         obtain ⟨eb, c, plain, hc, heff, hplain, hdp⟩ := prepared_str dj lt lb st text none none enc data leOut hprep
         obtain rfl := hdp rfl
         simp only [List.length_append] at hsz
-        have hasc := hjson.ascii l text hd
-        have h13 := hjson.noCR l text hd
+        have hasc := hjson.ascii l text hdom hd
+        have h13 := hjson.noCR l text hdom hd
         have hdos : textDos none text = false := guessText_noCR text h13
         obtain ⟨-, ⟨d, hde, hpd⟩, -, -⟩ := ofFaithful_facts (env dj lt lb) cfg st text none enc leOut _ heff
           (faithful dj lt lb _ c hc) (newlines dj lt lb _ c hc) data hplain
@@ -471,7 +546,7 @@ theorem callLaws_exist (hjson : JsonLaws dj lt) (st : St) (c : Call)
                   hloads := by
                     show lt (normText text (textDos none text)) = .ok (.obj l)
                     rw [hdos]
-                    exact hjson.loads l text hd,
+                    exact hjson.loads l text hdom hd,
                   hobj := rfl } : MetaLaws (env dj lt lb) cfg st (.obj l) enc)⟩
       · cases hpl
     | str _ => exact ⟨PUnit.unit⟩
@@ -499,17 +574,17 @@ theorem callLaws_exist (hjson : JsonLaws dj lt) (st : St) (c : Call)
     | other => exact ⟨PUnit.unit⟩
 
 /-- **The laws of a program hold as soon as every call is accepted.** -/
-theorem programLaws_exist (hjson : JsonLaws dj lt) : ∀ (cs : List Call) (st : St),
-    AllOk (env dj lt lb) cfg st cs → DictArgs cs →
+theorem programLaws_exist (hjson : JsonLaws Dom dj lt) : ∀ (cs : List Call) (st : St),
+    AllOk (env dj lt lb) cfg st cs → DictArgs cs → DictsIn Dom cs →
     (runFrom (env dj lt lb) cfg st cs).out.length ≤ Reader.maxRead →
     Nonempty (ProgramLawsFrom (env dj lt lb) cfg st cs)
-  | [], _, _, _, _ => ⟨PUnit.unit⟩
-  | c :: cs, st, hok, hwf, hsz => by
+  | [], _, _, _, _, _ => ⟨PUnit.unit⟩
+  | c :: cs, st, hok, hwf, hdom, hsz => by
     have hpre : (step (env dj lt lb) cfg st c).1.out <+: (runFrom (env dj lt lb) cfg st (c :: cs)).out :=
       runFrom_prefix _ _ _ cs
     obtain ⟨L⟩ := callLaws_exist dj lt lb hjson st c hok.1
-      (hwf c List.mem_cons_self) (Nat.le_trans hpre.length_le hsz)
-    obtain ⟨Ls⟩ := programLaws_exist hjson cs _ hok.2 (fun c' h => hwf c' (List.mem_cons_of_mem _ h)) hsz
+      (hwf c List.mem_cons_self) hdom.head (Nat.le_trans hpre.length_le hsz)
+    obtain ⟨Ls⟩ := programLaws_exist hjson cs _ hok.2 (fun c' h => hwf c' (List.mem_cons_of_mem _ h)) hdom.tail hsz
     exact ⟨(L, Ls)⟩
 
 /-! ## contents and section ids as functions of the calls' arguments -/
@@ -537,8 +612,8 @@ def secIds : Nat → List Call → List SecId
   | lvl, .diff .. :: cs => ⟨lvl, .diff⟩ :: secIds lvl cs
 
 /-- whatever laws are given for a call of the concrete environment, they are faithful -/
-theorem callFaithful_any (hjson : JsonLaws dj lt) (st : St) (c : Call)
-    (hwf : dictArgOk c = true)
+theorem callFaithful_any (hjson : JsonLaws Dom dj lt) (st : St) (c : Call)
+    (hwf : dictArgOk c = true) (hdom : dictArgIn Dom c)
     (L : CallLaws (env dj lt lb) cfg st c) : CallFaithful (env dj lt lb) cfg st c L := by
   cases c with
   | newChange enc => trivial
@@ -556,26 +631,28 @@ theorem callFaithful_any (hjson : JsonLaws dj lt) (st : St) (c : Call)
     cases m with
     | dict j =>
       obtain ⟨l, rfl⟩ := isObj_inv j hwf
+      have hdom : Dom (.obj l) := hdom
       show CodecFaithful _ _ (Text.ofAscii (MetaLaws.tl L).encName) ∧
         lt (normText (MetaLaws.text L) (guessText (MetaLaws.text L)).1) = .ok (.obj l)
       have hd : dj (.obj l) = .ok (MetaLaws.text L) := MetaLaws.hdumps L
       refine ⟨?_, ?_⟩
       · obtain ⟨c, hc⟩ := lookup_of_encode dj lt lb _ _ _ (MetaLaws.tl L).henc
         exact faithful dj lt lb _ c hc
-      · rw [guessText_noCR _ (hjson.noCR l _ hd)]
-        exact hjson.loads l _ hd
+      · rw [guessText_noCR _ (hjson.noCR l _ hdom hd)]
+        exact hjson.loads l _ hdom hd
     | str _ => trivial
     | bytes _ => trivial
     | other => trivial
   | diff content dtype enc le =>
     cases content <;> trivial
 
-theorem programFaithful_any (hjson : JsonLaws dj lt) : ∀ (cs : List Call) (st : St), DictArgs cs →
+theorem programFaithful_any (hjson : JsonLaws Dom dj lt) : ∀ (cs : List Call) (st : St), DictArgs cs →
+    DictsIn Dom cs →
     ∀ Ls : ProgramLawsFrom (env dj lt lb) cfg st cs, ProgramFaithfulFrom (env dj lt lb) cfg st cs Ls
-  | [], _, _, _ => trivial
-  | c :: cs, st, hwf, (L, Ls) =>
-    ⟨callFaithful_any dj lt lb hjson st c (hwf c List.mem_cons_self) L,
-     programFaithful_any hjson cs _ (fun c' h => hwf c' (List.mem_cons_of_mem _ h)) Ls⟩
+  | [], _, _, _, _ => trivial
+  | c :: cs, st, hwf, hdom, (L, Ls) =>
+    ⟨callFaithful_any dj lt lb hjson st c (hwf c List.mem_cons_self) hdom.head L,
+     programFaithful_any hjson cs _ (fun c' h => hwf c' (List.mem_cons_of_mem _ h)) hdom.tail Ls⟩
 
 /-- whatever laws are given for a call of the concrete environment, `writtenContent` is
 `contentOfCall` (for a diff: the newline of the laws is `diffNl`) -/
@@ -664,30 +741,30 @@ theorem expectedFrom_length (env : Env) (cfg : Config) : ∀ (cs : List Call) (s
     simp only [expectedFrom, List.length_cons, expectedFrom_length env cfg cs]
 
 section Env
-variable (dj : Json → EnvR Text) (lt : Text → EnvR Json) (lb : Bytes → EnvR Json)
+variable {Dom : Json → Prop} (dj : Json → EnvR Text) (lt : Text → EnvR Json) (lb : Bytes → EnvR Json)
 
 /-! ## whole programs -/
 
 /-- **The laws of a program, and their faithfulness, from acceptance.**  For the environment made
 of the codecs of `Model/Codecs.lean`: whenever the constructor and every call were accepted, what was written fits
-`fp.read`, and `dict` arguments are JSON objects, `ProgramLaws` holds and is faithful
-(`ProgramFaithfulFrom`) — under `JsonLaws` only. -/
-theorem laws_of_accepted (hjson : JsonLaws dj lt) (enc : Name) (calls : List Call)
+`fp.read`, and `dict` arguments are JSON objects of the domain `Dom`, `ProgramLaws` holds and is
+faithful (`ProgramFaithfulFrom`) — under `JsonLaws Dom` only. -/
+theorem laws_of_accepted (hjson : JsonLaws Dom dj lt) (enc : Name) (calls : List Call)
     (hok : ∀ r ∈ (run (env dj lt lb) cfg (some enc) (Text.ofAscii b!"1.0") calls).2, r = .ok)
-    (hwf : DictArgs calls)
+    (hwf : DictArgs calls) (hdom : DictsIn Dom calls)
     (hsize : (run (env dj lt lb) cfg (some enc) (Text.ofAscii b!"1.0") calls).1.out.length ≤ Reader.maxRead) :
     ∃ laws : ProgramLaws (env dj lt lb) cfg enc calls,
       ProgramFaithfulFrom (env dj lt lb) cfg (init (some enc) (Text.ofAscii b!"1.0")).1 calls laws.calls := by
   obtain ⟨hinit, hall, hrun⟩ := run_ok _ _ (some enc) (Text.ofAscii b!"1.0") calls hok
   rw [hrun] at hsize
-  obtain ⟨Ls⟩ := programLaws_exist dj lt lb hjson calls _ hall hwf hsize
+  obtain ⟨Ls⟩ := programLaws_exist dj lt lb hjson calls _ hall hwf hdom hsize
   exact ⟨⟨(nameOk_iff_not_refused enc).2 (init_ok_enc enc _ hinit), Ls⟩,
-    programFaithful_any dj lt lb hjson calls _ hwf Ls⟩
+    programFaithful_any dj lt lb hjson calls _ hwf hdom Ls⟩
 
 /-- **The whole-run round trip for the concrete codecs, no hypothesis about codecs.** -/
-theorem run_concrete (hjson : JsonLaws dj lt) (chunk : Nat) (hc : 0 < chunk) (enc : Name) (calls : List Call)
+theorem run_concrete (hjson : JsonLaws Dom dj lt) (chunk : Nat) (hc : 0 < chunk) (enc : Name) (calls : List Call)
     (hok : ∀ r ∈ (run (env dj lt lb) cfg (some enc) (Text.ofAscii b!"1.0") calls).2, r = .ok)
-    (hwf : DictArgs calls)
+    (hwf : DictArgs calls) (hdom : DictsIn Dom calls)
     (hsize : (run (env dj lt lb) cfg (some enc) (Text.ofAscii b!"1.0") calls).1.out.length ≤ Reader.maxRead) :
     ∃ recs, Reader.readAll (env dj lt lb) cfg chunk
         (run (env dj lt lb) cfg (some enc) (Text.ofAscii b!"1.0") calls).1.out = (recs, .done) ∧
@@ -695,7 +772,7 @@ theorem run_concrete (hjson : JsonLaws dj lt) (chunk : Nat) (hc : 0 < chunk) (en
       recs.map (·.content) = .container :: calls.map contentOfCall ∧
       recs.map (·.sec) = SecId.main :: secIds 1 calls ∧
       ∃ laws : ProgramLaws (env dj lt lb) cfg enc calls, recs = expectedRecords (env dj lt lb) cfg enc calls laws := by
-  obtain ⟨laws, F⟩ := laws_of_accepted dj lt lb hjson enc calls hok hwf hsize
+  obtain ⟨laws, F⟩ := laws_of_accepted dj lt lb hjson enc calls hok hwf hdom hsize
   obtain ⟨hinit, hall, -⟩ := run_ok _ _ (some enc) (Text.ofAscii b!"1.0") calls hok
   refine ⟨expectedRecords (env dj lt lb) cfg enc calls laws, run_roundtrip _ _ chunk hc enc calls hok laws, ?_, ?_, ?_,
     laws, rfl⟩
